@@ -30,6 +30,7 @@ package directory
 //@ prop C03 C15
 //@ at return ghost lastKey(n) = key
 //@ ensures looks-up-this-key: lastKey(n) == key
+//@ at return assert a-name-resolves-only-to-the-link-the-scan-found: err == nil ==> link != nil && result == link
 //@ ensures found-or-error: (err == nil ==> result != nil) && (err != nil ==> result == nil)
 //@ at call utils.Lookup#1 assert scans-its-own-links-for-this-key: callee_key == key && callee_links.x == n._substrate.Links.x
 //@ func (*directory._UnixFSBasicDir).LookupBySegment
